@@ -214,3 +214,17 @@ fn k20_polygon_from_geo_single() {
     assert!(poly.rings()[0].points().len() == 4 && poly.rings()[1].points().len() == 4);
     assert!(poly.rings()[0].points()[1].y == 9.0 && poly.rings()[1].points()[1].x == 3.0);
 }
+
+/// polygon [Outer A, Outer B, Inner b] -> MultiPolygon [(A,[]), (B,[b])]: a hole belongs to the outer ring before it
+#[kani::proof]
+#[kani::unwind(6)]
+fn k20_polygon_hole_after_second_outer() {
+    let a = vec![Point::new(0.0, 0.0), Point::new(0.0, 9.0), Point::new(9.0, 9.0), Point::new(0.0, 0.0)]; // clockwise
+    let b = vec![Point::new(20.0, 20.0), Point::new(20.0, 29.0), Point::new(29.0, 29.0), Point::new(20.0, 20.0)];
+    let h = vec![Point::new(21.0, 22.0), Point::new(23.0, 24.0), Point::new(21.0, 25.0), Point::new(21.0, 22.0)]; // counter-clockwise
+    let poly = Polygon::with_rings(vec![PolygonRing::Outer(a), PolygonRing::Outer(b), PolygonRing::Inner(h)]);
+    let mp: geo_types::MultiPolygon<f64> = poly.into();
+    assert!(mp.0.len() == 2);
+    assert!(mp.0[0].interiors().len() == 0 && mp.0[1].interiors().len() == 1);
+    assert!(mp.0[1].interiors()[0].0[1] == c(23.0, 24.0) && mp.0[1].exterior().0[1] == c(20.0, 29.0));
+}
